@@ -49,6 +49,7 @@ def handle (op payload : String) : Option String :=
   | "lr.parse" => handleParse payload
   | "lr.validate" => handleValidate payload   -- Lox/LR/DrvValidate.lean
   | "lr.errfree" => handleErrFree payload     -- Lox/LR/DrvValidate.lean
+  | "lr.validate_safe" => handleValidateSafe payload
   | _ => none
 
 end Lox.LR
